@@ -9,6 +9,7 @@ Theorem run_spike_attr : forall (c : cls) (p : params RN),
   ctor_ok RN c p = true ->
   0 < refrac_t RN p ->
   forall (ops : list (op RN)) (s : nstate RN),
+  Forall (op_bounded p) ops ->
   bounded p (cols RN s) ->
   Forall
     (fun r : option (list (list bool)) * nstate RN =>
